@@ -612,6 +612,13 @@ def run(tier):
         'generator intended is a C02 matter; such documents are counted in documents_where_walker_and_generator_paths_differ)',
         'the first segment of any X12Reader stream is ISA (the "has no parent" assertion of the plain arm cannot fire)',
         'loop ids name loops that begin with a segment and occur at most once on any map path (checked per answer by Consistent)']
+    if built:
+        # context reader end to end: real iter_segments against Model/CtxDoc.lean (tokenizer + envelope + walker MODEL + tree
+        # model), on generated, faulty and mutated documents, several loop ids each
+        from . import doc as docmod, ctxdoc
+        sample = docmod.small_corpus(common.seed() * 3 + 9, 60 if tier == 'thorough' else 20)
+        lids = [[None, 'ISA_LOOP', 'ST_LOOP', 'GS_LOOP', 'DETAIL', '2000A', '2000', '2300'][: 5 + (i % 4)] for i in range(len(sample))]
+        ctxdoc.attach(res, [t for _, t in sample], lids, 'c09-sample')
     return res.finish(trusted=common.TRUSTED_COMMON + [
         'modelled: X12ContextReader.iter_segments (after fixes C09-D10, C09-D11, C09-gs-loop-level), _add_segment, '
         'X12LoopDataNode._add_loop_node, _get_insert_idx, iterate_segments; the walker enters as abstract answers obtained by driving '
